@@ -263,9 +263,20 @@ func (dec *Decoder) DiscardLine() (nonSyncLiteral bool) {
 	if dec.crlf {
 		return false
 	}
-	var text string
-	dec.Text(&text)
-	dec.CRLF()
+	// The line ends at the first LF: a CR which isn't followed by LF is part
+	// of the line
+	var sb strings.Builder
+	for {
+		b, ok := dec.readByte()
+		if !ok {
+			return false
+		} else if b == '\n' {
+			break
+		}
+		sb.WriteByte(b)
+	}
+	dec.crlf = true
+	text := strings.TrimSuffix(sb.String(), "\r")
 	return endsWithNonSyncLiteral(text) || (partialHeader && strings.HasSuffix(text, "+}"))
 }
 
